@@ -208,7 +208,9 @@ def run_property(pid, tier_, bits, explore_kwargs, property_files, extra_python_
                  nontrivial=lambda c, r: r["response"].get("data") is not None, rule=""):
     rep = common.Report(pid)
     seed = common.seed()
-    b = common.build(["Properties/%s.vo" % pid, "Model/RunExec.vo", "Model/StdScalars.vo"])
+    # C03's leaf cases are the wire theorems of the translated scalars (Properties/C10.v): part of its obligations
+    b = common.build(["Properties/%s.vo" % pid, "Model/RunExec.vo", "Model/StdScalars.vo"] +
+                     (["Properties/C10.vo"] if pid == "C03" else []))
     gate = common.grep_gate()
     proofs_ok = b["ok"] and not gate
     meta, results = explore(tier_, seed, pid, evals=IMPL_EVAL + SPEC_EVAL, **explore_kwargs)
